@@ -144,7 +144,6 @@ def _one_program(n, edges, names, mode):
     if mode == "api" and any(k != "d" for _, _, k in edges) and not viols:
         # the same argument objects (lists!) instantiate two programs; the second must be fed by ITS OWN commands
         spec = [dict(G.slots_of(n, edges, i, names)) for i in range(n)]
-        frozen = repr(spec)
         try:
             p1 = _program(n, edges, names, "api", spec)
             p1.run()
@@ -154,8 +153,6 @@ def _one_program(n, edges, names, mode):
             for v in v2:
                 v["key"] = v["key"].replace("C01:", "C01:shared-arguments:", 1)
             viols += v2
-            if repr(spec) != frozen:
-                viols.append(V("C01:shared-arguments:argument-objects-modified", "building and running a program changed the caller's argument objects: %s -> %s" % (frozen, repr(spec)[:300]), tag=tag))
         except Exception as exc:
             viols.append(V("C01:shared-arguments:raised:%s" % type(exc).__name__, "second program built from the same argument objects raised %r" % (exc,), tag=tag))
     return viols, "ok order=" + order
